@@ -42,10 +42,21 @@ def generate(seed, tier, index):
                                 {"steps": steps, "policy": rk.choice(["on_iteration", "on_iteration", "on_interval", "on_t_sample"]),
                                  "nreq": (3, 12), "p_explicit_tmax": 0.7}, rich=rs.chance(0.4))
     sp = entry["phys"]["sp"]
-    cap = (60 * sp["steps"] + 500) if kind == "gillespie" else (C.fixed_steps_needed(sp) + 5)
-    nrep = rf.wchoice([(1, 3), (2, 1)])
+    nrep = rf.wchoice([(1, 3), (2, 2)])
+    scripts = [entry]
+    if nrep == 2 and rf.chance(0.6):
+        # second set-up on the same engine object with a sibling model: same species, same number of reactions, other
+        # stoichiometry and constants (what a front-end cache keyed too coarsely would confuse)
+        from .. import gen
+        sib = gen.sibling_spec(rs.sub("sib"), entry["phys"]["spec"], p)
+        scripts.append(C.make_script_entry(rs.sub("sib2"), ru.sub("sib"), rk.sub("sib"), kind, None,
+                                           {"steps": steps, "policy": "on_iteration", "p_explicit_tmax": 0.7},
+                                           rich=False, spec=sib))
     eps = []
     for rep in range(nrep):
+        sidx = 1 if (rep == 1 and len(scripts) > 1) else 0
+        sp = scripts[sidx]["phys"]["sp"]
+        cap = (60 * sp["steps"] + 500) if kind == "gillespie" else (C.fixed_steps_needed(sp) + 5)
         plan = []
         for _ in range(rf.randint(1, 4)):
             c = rf.wchoice([("iterate", 1), ("iterate_n", 3), ("run", 2)])
@@ -60,10 +71,10 @@ def generate(seed, tier, index):
         ops = [["poison", rf.choice([0, 0xff])], ["setup"], ["drive", plan, cap], ["output"]]
         if rep == nrep - 1 or rf.chance(0.5):
             ops.append(["finalize"])
-        eps.append({"obj": 0, "kind": kind, "via": rf.choice(["LibRDEngine", "factory"]), "script": 0, "ops": ops})
+        eps.append({"obj": 0, "kind": kind, "via": rf.choice(["LibRDEngine", "factory"]), "script": sidx, "ops": ops})
     return {"format": 1, "property": ID, "seed": seed, "tier": tier, "index": index, "build": "plain",
-            "scripts": [entry], "lifetimes": [{"pyseed": rf.bits(30), "episodes": eps}],
-            "meta": {"kind": kind}}
+            "scripts": scripts, "lifetimes": [{"pyseed": rf.bits(30), "episodes": eps}],
+            "meta": {"kind": kind, "sibling": len(scripts) > 1}}
 
 
 def check(case, results):
@@ -71,10 +82,12 @@ def check(case, results):
     kind = case["meta"]["kind"]
     stats = {"cases": 1, "lifetimes": 1, "kinds": {kind: 1}}
     res = results[0]
-    phys = case["scripts"][0]["phys"]
-    m = Model(phys["spec"])
     nontrivial = 0
+    if case["meta"].get("sibling"):
+        stats["sibling_second_setup"] = 1
     for ei, ep in enumerate(case["lifetimes"][0]["episodes"]):
+        phys = case["scripts"][ep["script"]]["phys"]
+        m = Model(phys["spec"])
         h = traj.extract(case, 0, ei, res, m.ns, m.nc)
         v = []
         for ev in h.exc:
